@@ -8,10 +8,14 @@ module (generated codec, prophy headers, libstdc++ vector code) is executed.
 
 Anything outside this vocabulary raises Unsupported: the query is then *inconclusive*, never a success.
 """
+import os
 import re
 import time
 import z3
 
+_FAULT = os.environ.get('VF_LLSYM_FAULT', '')
+# sample of the 'unsat' answers of the current task, kept as SMT-LIB2 text for the cross-check with other solvers
+XCHECK = dict(max=0, stride=1, seen=0, log=[])
 
 class Unsupported(Exception):
     pass
@@ -707,6 +711,10 @@ class Exec(object):
         s.solver.add(extra)
         r = s.solver.check()
         m = s.solver.model() if r == z3.sat else None
+        if r == z3.unsat and XCHECK['max'] and XCHECK['seen'] % XCHECK['stride'] == 0 and len(XCHECK['log']) < XCHECK['max']:
+            XCHECK['log'].append(s.solver.to_smt2())      # re-decided by independent solver binaries (cppharness.crosscheck)
+        if r == z3.unsat:
+            XCHECK['seen'] += 1
         s.solver.pop()
         s.stats['solver_s'] += time.time() - t0
         if r == z3.unknown:
@@ -974,7 +982,10 @@ class Exec(object):
                 prov = a.prov if b.prov is None else (b.prov if a.prov is None else None)
                 if op == 'sub' and a.prov is not None and b.prov is not None:
                     prov = None
-                L[I.dst] = Val(z3.simplify(fn(a.e, b.e)), prov, _por(a.poison, b.poison))
+                r = fn(a.e, b.e)
+                if _FAULT == op:                  # deliberate mis-model, used only to test the engine validation
+                    r = r ^ 1
+                L[I.dst] = Val(z3.simplify(r), prov, _por(a.poison, b.poison))
             elif op == 'icmp':
                 a = s.val(st, I.ty, I.a)
                 b = s.val(st, I.ty, I.b)
